@@ -46,15 +46,26 @@ def fns_all():
 
 def mk(fns, jobs, ext, cache, maxjobs, started, restart_stats=(), restart_hosts=(), scan=0, toproc=None, nextpos=None, more=True):
     log = []
+    held = {'mode': None}       # ghost: the lock this PROCESS holds on the lock file.  Contract of boost::interprocess::file_lock over POSIX fcntl record locks:
+                                # lock() acquires, unlock() releases, and DESTROYING ANY file_lock object of the same file closes a descriptor of that file, which drops every lock the process holds on it
+    def fl_lock(f, mode):
+        held['mode'] = mode; log.append(('flock', mode))
+    def fl_unlock(f, mode):
+        held['mode'] = None; log.append(('funlock', mode))
+    def fl_destroy(o):
+        if o.get('__class__') == 'file_lock':
+            if held['mode'] is not None:
+                log.append(('lock-dropped-by-destructor',))
+            held['mode'] = None
     def jcb(name):
         return name
     cb = {
         'enum': lambda n: LEVELS.get(n, n), 'getLogger': lambda t: 'LOGGER', 'getReportLevel': lambda l: -1, 'isMaverick': lambda t: True,
         'Lock': lambda m: log.append(('mutex.lock',)), 'Unlock': lambda m: log.append(('mutex.unlock',)),
-        'lock': lambda f: log.append(('flock', 'exclusive')), 'lock_sharable': lambda f: log.append(('flock', 'shared')),
-        'unlock': lambda f: log.append(('funlock', 'exclusive')), 'unlock_sharable': lambda f: log.append(('funlock', 'shared')),
-        'LOAD_JOBS': lambda path: (log.append(('load', path)), [dict(j, touched=[]) for j in ext])[1],
-        'WRITE_JOBS': lambda js, path: log.append(('write', path, js, [(j['id'], j['status'], j['host']) for j in js])),
+        'lock': lambda f: fl_lock(f, 'exclusive'), 'lock_sharable': lambda f: fl_lock(f, 'shared'),
+        'unlock': lambda f: fl_unlock(f, 'exclusive'), 'unlock_sharable': lambda f: fl_unlock(f, 'shared'), 'destroy': fl_destroy,
+        'LOAD_JOBS': lambda path: (log.append(('load', path, held['mode'])), [dict(j, touched=[]) for j in ext])[1],
+        'WRITE_JOBS': lambda js, path: log.append(('write', path, js, [(j['id'], j['status'], j['host']) for j in js], held['mode'])),
         'GenerateHost': lambda o=None: ME, 'GenerateTime': lambda o=None: 'T',
         'isAvailable': lambda j: j['status'] == 'AVAILABLE', 'getStatusStr': lambda j: j['status'], 'getStatus': lambda j: j['status'], 'getHost': lambda j: j['host'] or '', 'hasHost': lambda j: j['host'] is not None,
         'getId': lambda j: j['id'], 'Reset': lambda j: j['touched'].append('reset'), 'setStatus': lambda j, s_: (j.__setitem__('status', s_), j['touched'].append('status'))[1],
@@ -63,7 +74,7 @@ def mk(fns, jobs, ext, cache, maxjobs, started, restart_stats=(), restart_hosts=
         'construct': lambda ex, n, ty, args: ({'__class__': 'file_lock'} if 'file_lock' in ty else NotImplemented),
         'exec_functions': ('UPDATE_JOBS',),
     }
-    this = {'jobs_': jobs, 'metajit_': ListIt(jobs, scan), 'jobsToProc_': toproc if toproc is not None else [], 'nextjit_': None, 'progFile_': 'jobs.xml', 'lockFile_': 'jobs.lock', 'flock_': None,
+    this = {'jobs_': jobs, 'metajit_': ListIt(jobs, scan), 'jobsToProc_': toproc if toproc is not None else [], 'nextjit_': None, 'progFile_': 'jobs.xml', 'lockFile_': 'jobs.lock', 'flock_': {'__class__': 'file_lock', 'from': 'an earlier LockProgFile call of this process (released)'},
             'cacheSize_': cache, 'maxJobs_': maxjobs, 'startJobsCount_': started, 'restartMode_': bool(restart_stats or restart_hosts), 'restart_stats_': MapModel(restart_stats),
             'restart_hosts_': MapModel(restart_hosts), 'moreJobsAvailable_': more, 'lockThread_': 'MUTEX', 'jobsReported_': 0}
     this['nextjit_'] = ListIt(this['jobsToProc_'], len(this['jobsToProc_']) if nextpos is None else nextpos)
@@ -78,6 +89,9 @@ def check_sync(tag, this, log, before, ext, cache, maxjobs, started, rs, rh, sca
     order = [k for k in kinds if k in ('flock', 'load', 'write', 'funlock')]
     out.append(('order', order == ['flock', 'load', 'write', 'write', 'funlock'], 'events %s' % order))
     out.append(('lock-mode', ('flock', 'exclusive') in log and ('funlock', 'exclusive') in log, 'lock events %s' % [e for e in log if e[0] in ('flock', 'funlock')]))
+    io = [e for e in log if e[0] in ('load', 'write')]
+    out.append(('lock-held', bool(io) and all(e[-1] == 'exclusive' for e in io) and ('lock-dropped-by-destructor',) not in log,
+                'the exclusive lock is held by this process at every load/write of the job file (file_lock contract over POSIX record locks: destroying another file_lock object of the same file drops it): %s' % [(e[0], e[-1]) for e in io]))
     writes = [e for e in log if e[0] == 'write']
     if len(writes) == 2:
         out.append(('write-targets', writes[0][1] == 'jobs.xml~' and writes[1][1] == 'jobs.xml' and writes[0][2] is this['jobs_'] and writes[1][2] is this['jobs_'], 'backup first, then the job file, both from jobs_'))
